@@ -133,7 +133,9 @@ WEIGHTS = ['one', 'uniq', 'uniq', 'uniq', 'neg', 'tiny', 'int', 'nano']
 def gen_weight(rnd, vals, kind=None):
     k = kind or rnd.choice(WEIGHTS)
     if k == 'one':
-        return 1.0
+        # unit gain - mostly +1.0 (the weight for which generated code omits the multiplication), sometimes exactly -1.0 (inhibitory
+        # unit gain: same magnitude, must keep its sign)
+        return 1.0 if rnd.random() < 0.7 else -1.0
     if k == 'neg':
         return -vals.new()
     if k == 'tiny':
